@@ -544,6 +544,17 @@ m('new-table-heap-flushes-under-its-write-latch', ['C19', 'C12'], TH, """	firstP
 	firstPage.RemoveWLatchRecord(int32(txn.txnID))
 	firstPage.WUnlatch()
 """, ['C19-R4 [storage/access.NewTableHeap:no-page-latch-held-at-flush]'])
+m('failed-fetch-offers-stale-frame-for-eviction', ['C13'], BPM, """	err := b.diskManager.ReadPage(pageID, data)
+	if err != nil {
+""", """	err := b.diskManager.ReadPage(pageID, data)
+	if err != nil {
+		if !isFromFreeList {
+			(*b.replacer).Unpin(*frameID)
+		}
+""", ['C13-R9 [ClockReplacer.Unpin:caller:(*storage/buffer.BufferPoolManager).FetchPage]'])
+m('flush-all-dirty-skips-deallocated', ['C09', 'C01'], BPM, """			if pg.IsDirty() {
+				pageIDs = append(pageIDs, pageID)""", """			if pg.IsDirty() && !pg.IsDeallocated() {
+				pageIDs = append(pageIDs, pageID)""", ['C09-R5 [FlushAllDirtyPages:every-dirty-page-is-collected]'])
 # drop the one that needs a helper that does not exist
 M = [x for x in M if x['id'] != 'insert-executor-unlocks-early']
 os.chdir(os.path.dirname(os.path.abspath(__file__)) + '/..')
